@@ -6,6 +6,7 @@ import os
 import random
 import time
 
+import cnc
 import codec
 import crash
 import dmg
@@ -547,6 +548,9 @@ reg(HistProp('C19', cfg_c19, probes_c19, quick=250, thorough=6000,
 reg(HistProp('C18', cfg_c01, probes_c03, quick=40, thorough=600,
              rule='deterministic schedules: coverage.notify; the history part keeps Consume (what a woken waiter returns) tied',
              nontrivial=has_multi_layout, extra=ntf.c18_extra))
+reg(HistProp('C08', cfg_c01, probes_c03, quick=40, thorough=600,
+             rule='concurrent runs: coverage.conc; the sequential history part keeps the model of the single calls tied',
+             nontrivial=has_multi_layout, extra=cnc.c08_extra))
 reg(HistProp('C20', cfg_c20, probes_c20, quick=400, thorough=12000,
              rule='Log.Backup into fresh directories and repeated into the same directory after publish-only steps; each backup is '
                   'checked (Segment.Check of every file), opened read-write or read-only and fully observed (scan, Get of every '
